@@ -15,6 +15,7 @@ def run(rep, fb, tier):
     _l3.rule_narrow_arith(rep, fb)
     _l3.rule_cond_unsigned(rep, fb)
     _l3.rule_narrow_accumulator(rep, fb)
+    __import__("vf.rules.lints3", fromlist=["x"]).rule_bytemask_normalised(rep, fb)
     rep.units = fb.units
     rep.assumptions += [
         "clang 14's parser/type checker and its JSON AST dump are correct",
